@@ -70,7 +70,7 @@ def alternatives(name, lines, npkts, tier, for_pairs=False):
         alts["order"] = perms
     alts["eol"] = ["crlf", "no_final_newline", "cr_only_last"]
     ins = []
-    kinds = ["comment", "blank", "other_cr", "other_cr_exporter", "duplicate"]
+    kinds = ["comment", "blank", "other_cr", "other_cr_exporter", "duplicate", "commented_key_line", "commented_key_line_tight"]
     if name != "tls12":
         kinds.append("early_exporter_same_cr")
         kinds.append("client_early_traffic_same_cr")
@@ -104,6 +104,7 @@ def alternatives(name, lines, npkts, tier, for_pairs=False):
             dl.append({"kind": "big_file", "boundary": b})
         dl.append({"kind": "big_dsb", "boundary": 65536})
         dl.append({"kind": "big_dsb", "boundary": 131072})
+        dl.append({"kind": "big_dsb", "boundary": 393216})          # one block of ~470 kB: larger than the interface's snap length + 64 KiB
     alts["delivery"] = dl
     return alts
 
@@ -133,6 +134,9 @@ def render(lines, var):
         new = {"comment": "# SSL/TLS secrets log file, generated by NSS", "blank": "",
                "other_cr": f"CLIENT_RANDOM {other} {'cd' * 48}", "other_cr_exporter": f"EXPORTER_SECRET {other} {'ef' * 32}",
                "duplicate": ls[min(pos, len(ls) - 1)],
+               # a key line that was commented out (an outdated secret for the same client random), with and without a blank
+               "commented_key_line": "# " + (lambda l: " ".join(l.split(" ")[:2] + ["5a" * (len(l.split(" ")[2]) // 2)]))(ls[min(pos, len(ls) - 1)]),
+               "commented_key_line_tight": "#" + (lambda l: " ".join(l.split(" ")[:2] + ["a5" * (len(l.split(" ")[2]) // 2)]))(ls[min(pos, len(ls) - 1)]),
                "client_early_traffic_same_cr": "CLIENT_EARLY_TRAFFIC_SECRET %s %s" % (
                    ([l for l in ls if not l.upper().startswith("CLIENT_RANDOM")] or ls)[0].split(" ")[1], "34" * 32),
                "early_exporter_same_cr": "EARLY_EXPORTER_SECRET %s %s" % (
@@ -223,7 +227,8 @@ def execute(pkts, lines, var, judge_cli=False):
     elif k == "dsb_only":
         items.insert(0, pcapio.dsb(to_text(ls, eol)))
         cwd = {"repo": harness.SRC, "root": "/", "tmp": None}[dl["cwd"]]
-    data = pcapio.write_pcapng(items, endian=">" if var.get("container") == "pcapng_be" else "<", pre_idb_raw=[pcapio.dsb(t) for t in pre])
+    data = pcapio.write_pcapng(items, endian=">" if var.get("container") == "pcapng_be" else "<", pre_idb_raw=[pcapio.dsb(t) for t in pre],
+                               snaplen=262144)
     if judge_cli:
         return harness.run_cli(data, keyfile, cwd=cwd)
     return harness.run_tlexport(data, keyfile, cwd=cwd)
